@@ -618,7 +618,7 @@ var (
 	c11FileFaults   = []string{"devfull-after-reload", "fd-replaced-readonly", "fd-replaced-devfull", "fd-bad+path-devfull", "fd-bad+path-is-directory",
 		"directory-removed", "fd-bad+directory-removed", "rotated-without-reload", "fd-bad+permissions-dropped"}
 	c11SockFaults   = []string{"socket-peer-closed", "socket-listener-gone", "socket-listener-gone-connection-alive"}
-	c11FaultReqs    = []string{"read", "write", "list", "rawbody", "login", "wrap", "unwrap", "tokencreate", "kvwrite"}
+	c11FaultReqs    = []string{"read", "write", "list", "rawbody", "login", "wrap", "unwrap", "tokencreate", "kvwrite", "lklogin"}
 	c11FaultCarry   = []string{"read", "write", "login", "kvwrite"}
 	c11NeedsDevFull = map[string]bool{"devfull-at-enable": true, "devfull-after-reload": true, "fd-replaced-devfull": true, "fd-bad+path-devfull": true}
 )
@@ -1022,6 +1022,9 @@ func (fw *c11FWorld) runScenario(seed int64, sc *c11FaultScenario) {
 			req = &logical.Request{Operation: logical.ReadOperation, Path: "vrec/raw/" + name, ClientToken: w.root}
 		case "login":
 			req = &logical.Request{Operation: logical.UpdateOperation, Path: "auth/vcred/login", Data: reqData}
+		case "lklogin": // auth mount of a type name with user lockout (alias look-ahead call into the backend)
+			reqData["username"], reqData["password"] = "u"+rng.Canary(), "good"+rng.Canary()
+			req = &logical.Request{Operation: logical.UpdateOperation, Path: "auth/v" + c11LockTypes[si%len(c11LockTypes)] + "/login", Data: reqData}
 		case "wrap":
 			req = &logical.Request{Operation: logical.ReadOperation, Path: "vrec/data/" + name, ClientToken: w.root, WrapInfo: &logical.RequestWrapInfo{TTL: 5 * time.Minute}}
 		case "unwrap":
